@@ -1,6 +1,6 @@
 """C04 -- white space and comments never change the meaning of a label."""
 from ..core import Finding
-from .. import parserules, tables, lexrules
+from .. import parserules, tables, lexrules, tablerules
 from . import common
 
 
@@ -51,3 +51,5 @@ def run(repo, res, tier):
     _ls9.rule_preserve_kind(repo, res)
     # the grammar's own white space / delimiter characters are characters its lexer accepts
     common.rule_tables_allowed(repo, res)
+    # the white-space and delimiter tables hold single characters (membership is tested one character at a time)
+    tablerules.rule_tb_char(repo, res)
